@@ -57,7 +57,8 @@ macro_rules! walkers {
                 move |m: &mut Matching<F>| {
                     if let Some(mask) = mask {
                         // bit 16: user code that panics - the matcher itself, when shown the argument 7
-                        m.func(move |a: &u8, _| {
+                        m.func(move |a: &u8, reporter| {
+                            trace_push(dbg.unwrap_or(999), reporter.enabled());
                             if mask & (1 << 16) != 0 && *a == 7 {
                                 panic!("user:matcher");
                             }
